@@ -77,7 +77,8 @@ class PCEIdentity:
         self.serialNumber = bytes.decode(
             stream.get_mem(12)).strip("\u0000")
         if self.flattenedSize < (4 + 8 + 12):
-            print("PCE identity structure size field too small")
+            print("PCE identity structure size field too small",
+                  file=sys.stderr)
             return
         self.pceNameSize = self.flattenedSize - (4 + 8 + 12)
         self.pceName = bytes.decode(
